@@ -108,6 +108,8 @@ const Stats& stats();
 // crash context: the harness sets these so that the signal handler can print a replay line
 void set_context(const char* scenario, const char* config, uint64_t seed, uint64_t exec_index);
 void install_crash_handlers();
+// the unmanaged main thread finished one more operation of a long sequential sweep: restart its endless-loop watchdog
+void main_progress();
 void set_trace(bool on); // print every atomic operation / free to stderr (replay debugging)
 
 } // namespace xrt
